@@ -85,10 +85,15 @@ static void cmd(char **tok,int nt){
     if(!p) return;
     long nb; const char *mut=find_mut(tok,nt); unsigned char *b=mutate(p,mut,&nb,L);
     ogg_packet op; memset(&op,0,sizeof op); op.packet=b; op.bytes=nb; op.b_o_s=(which==0); const char *bo=find_opt(tok,nt,"bos="); if(bo) op.b_o_s=atoi(bo); op.packetno=which<3?which:7;
-    int ret=vorbis_synthesis_headerin(&x->vi,&x->vc,&op); free(b);
+    int ret=vorbis_synthesis_headerin(&x->vi,&x->vc,&op);
     if(ret==0&&!mut&&which==x->nh&&which<3) x->nh++;
     ev_begin("HeaderIn"); ev_i("d",di); ev_i("which",which); ev_i("mut",mut!=NULL); ev_i("ret",ret); ev_i("vch",x->vi.channels); ev_i("vrate",x->vi.rate); ev_i("vcs",x->vi.codec_setup!=NULL);
-    ev_i("ncm",x->vc.comments); ev_i("ven",x->vc.vendor!=NULL); ev_dst(x); ev_end(); }
+    ev_i("ncm",x->vc.comments); ev_i("ven",x->vc.vendor!=NULL);
+    if(which==2&&find_opt(tok,nt,"dump")){ /* the (mutated) setup packet and the link's identification packet byte by byte, for the strict reader */
+      ev_i("nhb",x->nh>=2?1:0); ev_arr_begin("idbytes"); for(long i=0;i<L->pk[0].bytes;i++) ev_arr_i(L->pk[0].data[i]); ev_arr_end();
+      ev_arr_begin("setupbytes"); for(long i=0;i<nb&&i<20000;i++) ev_arr_i(b[i]); ev_arr_end(); }
+    free(b);
+    ev_dst(x); ev_end(); }
   else if(!strcmp(c,"pinit")){
     int ret=vorbis_synthesis_init(&x->vd,&x->vi); x->s_vd=ret==0?1:2; int rb=-1; if(ret==0){ rb=vorbis_block_init(&x->vd,&x->vb); x->s_vb=1; x->inited=1; x->lastk=-1; x->hs=vorbis_synthesis_halfrate_p(&x->vi); }
     ev_begin("SynthInit"); ev_i("d",di); ev_i("ret",ret); ev_i("rb",rb); ev_i("nh",x->nh); ev_dst(x); ev_end(); }
